@@ -68,7 +68,7 @@ theorem events_ok (cfg : Cfg) (pol : Policy) (fuel : Nat) (hist : List (Oid × O
 
 theorem judgeStep_nil {bb : Option Name} {P : List Obj} {w1 : World} {r : StepRec} (h : StepOK bb P w1 r) :
     judgeStep bb P r = [] := by
-  simp [judgeStep, clauses, h.nocrash, h.known, h.euid, h.uid, h.creation, h.noeuid, h.exportc, h.asked, h.bind, h.fp]
+  simp [judgeStep, clauses, h.nocrash, h.known, h.euid, h.uid, h.creation, h.noeuid, h.exportc, h.asked, h.bind, h.fp, h.voc]
 
 theorem judgeFrom_nil {bb : Option Name} :
     ∀ (trace : List StepRec) (P : List Obj) (i : Nat), TraceOK bb P trace → judgeFrom bb P i trace = [] := by
